@@ -15,6 +15,26 @@ fn seq_oracle() -> SeqOracle {
         let c = &run.calls[i];
         let (b, a) = (run.before(), run.after());
         let shards = run.setup.shards as u64;
+        // "expired" means the same to the readers and to the sweeper (the library's `Clock::has_passed`: now > expiry):
+        // at every instant, the expiry instant itself included, a read serves exactly the held, undeleted keys the
+        // sweeper would keep
+        if let Op::ReadAll { .. } = &c.op {
+            let t = c.now_ms_inv;
+            for (variant, k, got) in read_all_results(c) {
+                if let Some(e) = b.entry(k) {
+                    if let (Some(x), false) = (e.3, e.4) {
+                        let sweeper_keeps = t <= x;
+                        if sweeper_keeps != got.is_some() {
+                            out.push(Finding::new(
+                                "readers-and-sweeper-disagree-on-expired",
+                                if t == x { "sweep:expiry-instant:readers-and-sweeper-disagree" } else { "sweep:readers-and-sweeper-disagree" },
+                                format!("{:?}({}) returned {:?} at t={} but the key's expiry is {} and the sweeper's rule (now > expiry) {} it", variant, k, got, t - T0_MS, x - T0_MS, if sweeper_keeps { "keeps" } else { "removes" }),
+                            ));
+                        }
+                    }
+                }
+            }
+        }
         if matches!(c.op, Op::TickWait) {
             let t = c.now_ms_inv;
             let r = (t / 1000) % shards;
@@ -103,6 +123,7 @@ fn seq_spec(ctx: &Ctx, shards: usize, w: i64) -> SeqSpec {
     alphabet.push(Op::Advance { ms: 1000 });
     alphabet.push(Op::Advance { ms: 2000 });
     alphabet.push(Op::TickWait);
+    alphabet.push(Op::ReadAll { keys: vec![1, 2] });
     SeqSpec {
         name: format!("seq/sweep-exactness/shards{}/W={}", shards, w),
         setup: Setup { weight: w, shards, buffer: 64, weight_fn: WeightFn::Const { c: 30, ttl_extra: 24 }, ..Setup::default() },
